@@ -5,6 +5,7 @@ package pqueue
 
 import (
 	"fmt"
+	"math"
 	"runtime/debug"
 	"strings"
 
@@ -42,21 +43,22 @@ type qrun struct {
 	// never compared with anything.  sh is a real []int grown by the same
 	// append calls, so its capacity follows the runtime's growth rule for the
 	// same element type.
-	sh        []int
-	shHead    int
-	shN       int
-	rotAdd    int // Add on a full buffer with head > 0 (rotate, then grow)
-	rotPush   int // Push on a full buffer with head > 0
-	growAdd0  int // Add on a full buffer with head == 0 (plain append)
-	growPush0 int // Push on a full buffer with head == 0
-	wrapAdd   int // Add stored below head (tail wrapped)
-	wrapPush  int // Push moved head from 0 to len-1
-	wrapPopL  int // PopLast took an element stored below head
-	headWrap  int // Pop moved head from len-1 to 0
-	wrapPeek  int // contents straddled the end of the buffer at a check
-	maxLen    int
-	emptied   int // became empty by Pop/PopLast
-	clears    int
+	sh          []int
+	shHead      int
+	shN         int
+	extremePeek int // Peek at an offset near math.MinInt / math.MaxInt
+	rotAdd      int // Add on a full buffer with head > 0 (rotate, then grow)
+	rotPush     int // Push on a full buffer with head > 0
+	growAdd0    int // Add on a full buffer with head == 0 (plain append)
+	growPush0   int // Push on a full buffer with head == 0
+	wrapAdd     int // Add stored below head (tail wrapped)
+	wrapPush    int // Push moved head from 0 to len-1
+	wrapPopL    int // PopLast took an element stored below head
+	headWrap    int // Pop moved head from len-1 to 0
+	wrapPeek    int // contents straddled the end of the buffer at a check
+	maxLen      int
+	emptied     int // became empty by Pop/PopLast
+	clears      int
 }
 
 func (r *qrun) errf(format string, args ...any) string {
@@ -346,6 +348,11 @@ func (r *qrun) apply(op Op) string {
 		return r.check() // all three are part of the comparison after every step
 	case "peek":
 		n := len(r.ref)
+		if a >= 380 { // offsets at the ends of the int range (negation and addition overflow)
+			ext := []int{math.MinInt, math.MinInt + 1, -math.MaxInt + 1, math.MaxInt, math.MaxInt - 1, math.MinInt + n, math.MaxInt - n, -1 << 31, 1 << 31, -1 << 32, 1 << 32}
+			r.extremePeek++
+			return r.checkPeek(ext[a%len(ext)])
+		}
 		return r.checkPeek(a%(2*n+5) - n - 2)
 	case "each":
 		return r.checkEachStop(a)
@@ -424,6 +431,7 @@ func runC07(c Case, o *vk.Obs) string {
 		o.NonTrivial()
 	}
 	o.Class("ctor=" + c.Ctor)
+	o.ClassIf(r.extremePeek > 0, "peek_at_int_range_end")
 	o.ClassIf(r.rotAdd > 0, "full_head>0_then_Add(shadow)")
 	o.ClassIf(r.rotPush > 0, "full_head>0_then_Push(shadow)")
 	o.ClassIf(r.rotAdd > 0 && r.rotPush > 0, "both_rotate_paths(shadow)")
